@@ -49,6 +49,7 @@ class Ctx:
         self._scopes = {}
         self.assumptions = []
         self._seen = set()
+        self.floor_failures = []
 
     def scope(self, func):
         if func.qualname not in self._scopes:
@@ -98,7 +99,8 @@ class Ctx:
         """instance floor: fewer instances than confirmed by reading => analysis error"""
         self.counts['%s.%s' % (rule, name)] = got
         if got < floor:
-            raise AnalysisError('%s: only %d instance(s) of "%s" found, floor is %d - the rule would pass '
+            # deferred: reported as ANALYSIS-ERROR by the driver unless the run found a violation anyway
+            self.floor_failures.append('%s: only %d instance(s) of "%s" found, floor is %d - the rule would pass '
                                 'vacuously (anchor moved or idiom changed)' % (rule, got, name, floor))
 
     def assume(self, text):
